@@ -13,13 +13,22 @@
 (*          the tests (the only source of Ed25519 private keys).                    *)
 (*  "cmp":  Compare(a, b) of two key objects obtained in any way                    *)
 (*          (__eq__, __hash__, fingerprint, asbytes).                               *)
+(*  "hist": H_Load(lp, lc) repeated: the SAME sealed private key file is loaded      *)
+(*          several times in one process with different passphrases and through      *)
+(*          the file's own key class or another one (SSHClient offers every file to   *)
+(*          every class).  As stated each answer depends on that load's passphrase    *)
+(*          only; `kcache` is the process-wide memory a defective implementation      *)
+(*          could key its decryption on instead.                                      *)
 (* `Defects` holds artificial mutations only (sensitivity runs); {} = as stated.    *)
-EXTENDS Naturals, FiniteSets, TLC
+EXTENDS Naturals, FiniteSets, Sequences, TLC
 
-CONSTANTS Defects
+CONSTANTS Defects,
+          MaxHist      \* longest load history explored (mode "hist")
 Mutations == {"create_0644", "pass_ignored_on_write", "load_ignores_password", "eq_private", "hash_private",
               "public_drops_type",
-              "eq_cert"}     \* __eq__ also compares the certificates when both sides carry one (seeded change C36a)
+              "eq_cert",
+              "kdf_cache_ignores_passphrase"}   \* the bcrypt KDF result is remembered per (salt, rounds, size), not per
+                                                \* passphrase: later loads of that file reuse it (seeded change C36d)     \* __eq__ also compares the certificates when both sides carry one (seeded change C36a)
 ASSUME Defects \subseteq Mutations
 
 (* ------------------------------ key objects ------------------------------ *)
@@ -82,12 +91,16 @@ VARIABLES mode, pc,
           \* file machine
           ktype, target, umask, fs, wpass, wres, lpass, route, lres, lkey,
           \* compare machine
-          ca, cb, eq, heq, fpeq, beq
+          ca, cb, eq, heq, fpeq, beq,
+          \* history machine
+          hfile, hist, kcache
 fvars == <<ktype, target, umask, fs, wpass, wres, lpass, route, lres, lkey>>
 cvars == <<ca, cb, eq, heq, fpeq, beq>>
-vars  == <<mode, pc, fvars, cvars>>
+hvars == <<hfile, hist, kcache>>
+vars  == <<mode, pc, fvars, cvars, hvars>>
 
-Init == /\ mode \in {"file", "cmp"} /\ pc = "start"
+Init == /\ mode \in {"file", "cmp", "hist"} /\ pc = "start"
+        /\ hfile = "-" /\ hist = <<>> /\ kcache = "-"
         /\ ktype = "-" /\ target = "-" /\ umask = "-" /\ fs = NoFile /\ wpass = "-" /\ wres = "-"
         /\ lpass = "-" /\ route = "-" /\ lres = "-" /\ lkey = "-"
         /\ ca = NoObj /\ cb = NoObj /\ eq = FALSE /\ heq = FALSE /\ fpeq = FALSE /\ beq = FALSE
@@ -101,13 +114,13 @@ Prepare(t, tg, um) ==
   /\ fs' = IF tg \in {"exists_0600", "exists_0644", "exists_0666"}
            THEN [exists |-> TRUE, created |-> FALSE, mode |-> ModeOf(tg), content |-> Sealed("-", "old", "none")]
            ELSE NoFile
-  /\ UNCHANGED <<wpass, wres, lpass, route, lres, lkey, cvars, mode>>
+  /\ UNCHANGED <<wpass, wres, lpass, route, lres, lkey, cvars, mode, hvars>>
 UseBundled(t, e) ==
   /\ mode = "file" /\ pc = "start" /\ pc' = "written"
   /\ t \in Types /\ e \in {"none", "ascii"}
   /\ ktype' = t /\ target' = "bundled" /\ umask' = "022" /\ wpass' = e /\ wres' = "ok"
   /\ fs' = [exists |-> TRUE, created |-> FALSE, mode |-> ModeOf("exists_0644"), content |-> Sealed(t, "k1", e)]
-  /\ UNCHANGED <<lpass, route, lres, lkey, cvars, mode>>
+  /\ UNCHANGED <<lpass, route, lres, lkey, cvars, mode, hvars>>
 \* os.open(filename, O_WRONLY | O_TRUNC | O_CREAT, 0600)
 W_OpenCreate ==
   /\ pc = "prepared" /\ pc' = "opened"
@@ -115,7 +128,7 @@ W_OpenCreate ==
            ELSE IF Creates(target)
                 THEN [exists |-> TRUE, created |-> TRUE, mode |-> CreateMode \ UmaskBits(umask), content |-> Empty]
                 ELSE [fs EXCEPT !.content = Empty]
-  /\ UNCHANGED <<ktype, target, umask, wpass, wres, lpass, route, lres, lkey, cvars, mode>>
+  /\ UNCHANGED <<ktype, target, umask, wpass, wres, lpass, route, lres, lkey, cvars, mode, hvars>>
 \* key.private_bytes(PEM, TraditionalOpenSSL, NoEncryption | BestAvailableEncryption(passphrase))
 W_Serialize(p) ==
   /\ pc = "opened" /\ pc' = "written"
@@ -125,7 +138,7 @@ W_Serialize(p) ==
      ELSE /\ wres' = "ok"
           /\ fs' = [fs EXCEPT !.exists = TRUE,
                               !.content = Sealed(ktype, "k1", IF "pass_ignored_on_write" \in Defects THEN "none" ELSE p)]
-  /\ UNCHANGED <<ktype, target, umask, lpass, route, lres, lkey, cvars, mode>>
+  /\ UNCHANGED <<ktype, target, umask, lpass, route, lres, lkey, cvars, mode, hvars>>
 L_Load(lp, rt) ==
   /\ pc = "written" /\ pc' = "done"
   /\ lp \in LPass /\ rt \in Routes
@@ -134,7 +147,7 @@ L_Load(lp, rt) ==
   /\ \E o \in LoadOutcomes(fs.content, lp) :
         /\ lres' = o
         /\ lkey' = IF o = "ok" THEN "equal_private" ELSE "-"
-  /\ UNCHANGED <<ktype, target, umask, fs, wpass, wres, cvars, mode>>
+  /\ UNCHANGED <<ktype, target, umask, fs, wpass, wres, cvars, mode, hvars>>
 
 (* ----------------------------- compare machine ---------------------------- *)
 EqModel(a, b)   == /\ Pub(a) = Pub(b) /\ ("eq_private" \in Defects => Private(a.kind) = Private(b.kind))
@@ -147,7 +160,36 @@ Compare(a, b) ==
   /\ ca' = a /\ cb' = b
   /\ eq' = EqModel(a, b) /\ heq' = HashModel(a, b)
   /\ fpeq' = (Pub(a) = Pub(b)) /\ beq' = (Pub(a) = Pub(b))
-  /\ UNCHANGED <<fvars, mode>>
+  /\ UNCHANGED <<fvars, mode, hvars>>
+
+(* ----------------------------- history machine ---------------------------- *)
+\* the sealed file: OpenSSH-format files derive their key with bcrypt (the KDF a cache could sit in front of),
+\* paramiko-written PEM files with the MD5 chain
+HKinds == {"rsa_openssh", "ecdsa_openssh", "ed25519_openssh", "rsa_pem"}
+UsesBcrypt(fk) == fk # "rsa_pem"
+HPass  == {"none", "right", "wrong", "wrong2", "empty"}     \* "right" = the passphrase the file is sealed with
+HClass == {"own", "other"}                                   \* loaded through the file's key class / another class
+\* the passphrase the decryption is actually keyed with
+Effective(fk, lp, cache) == IF "kdf_cache_ignores_passphrase" \in Defects /\ UsesBcrypt(fk) /\ cache # "-"
+                            THEN cache ELSE lp
+HOutcomes(fk, lp, lc, cache) ==
+  IF lp = "none" THEN {"need_password"}
+  ELSE IF lc = "other" THEN {"wrong_class", "need_password"}
+  ELSE IF Effective(fk, lp, cache) = "right" THEN {"ok"}
+  ELSE IF lp = "empty" THEN {"need_password", "bad_password"} ELSE {"bad_password"}
+\* which passphrase a KDF memory would hold after this load (the first one derived for the file)
+CacheAfter(fk, lp, cache) == IF UsesBcrypt(fk) /\ lp # "none" /\ cache = "-" THEN lp ELSE cache
+HEntry(lp, lc, res, loaded) == [lp |-> lp, lc |-> lc, res |-> res, loaded |-> loaded]
+H_Start(fk) ==
+  /\ mode = "hist" /\ pc = "start" /\ pc' = "hist"
+  /\ fk \in HKinds /\ hfile' = fk
+  /\ UNCHANGED <<hist, kcache, fvars, cvars, mode>>
+H_Load(lp, lc) ==
+  /\ pc = "hist" /\ Len(hist) < MaxHist /\ pc' = "hist"
+  /\ lp \in HPass /\ lc \in HClass
+  /\ \E o \in HOutcomes(hfile, lp, lc, kcache) : hist' = Append(hist, HEntry(lp, lc, o, o = "ok"))
+  /\ kcache' = CacheAfter(hfile, lp, kcache)
+  /\ UNCHANGED <<hfile, fvars, cvars, mode>>
 
 Next == \/ pc = "start" /\ mode = "file" /\ \E t \in Types, tg \in Targets, um \in Umasks : Prepare(t, tg, um)
         \/ pc = "start" /\ mode = "file" /\ \E t \in Types, e \in {"none", "ascii"} : UseBundled(t, e)
@@ -155,6 +197,8 @@ Next == \/ pc = "start" /\ mode = "file" /\ \E t \in Types, tg \in Targets, um \
         \/ pc = "opened" /\ \E p \in WPass : W_Serialize(p)
         \/ pc = "written" /\ \E lp \in LPass, rt \in Routes : L_Load(lp, rt)
         \/ pc = "start" /\ mode = "cmp" /\ \E a \in KeyObjs, b \in KeyObjs : Compare(a, b)
+        \/ pc = "start" /\ mode = "hist" /\ \E fk \in HKinds : H_Start(fk)
+        \/ pc = "hist" /\ \E lp \in HPass, lc \in HClass : H_Load(lp, lc)
 Spec == Init /\ [][Next]_vars
 
 (* ------------------------------ the property ------------------------------ *)
@@ -175,6 +219,13 @@ EqOnlyPublic   == CmpDone => (eq <=> SamePublic(ca, cb))
 HashOnlyPublic == (CmpDone /\ SamePublic(ca, cb)) => heq
 PublicStable   == (CmpDone /\ SamePublic(ca, cb)) => (fpeq /\ beq)
 
+\* the same two clauses for every load of a history: whatever was loaded before in this process,
+\* "loads back ... [with its passphrase]" and "cannot be loaded without it or with a wrong one"
+HistRight == \A i \in 1..Len(hist) : (hist[i].lc = "own" /\ hist[i].lp = "right") => hist[i].res = "ok"
+HistWrong == \A i \in 1..Len(hist) : (hist[i].lc = "own" /\ hist[i].lp # "right") => ~hist[i].loaded
+HistSound == HistRight /\ HistWrong
+HistOther == \A i \in 1..Len(hist) : hist[i].lc = "other" => ~hist[i].loaded      \* (conformance)
+
 \* conformance (what the code is seen to do beyond the statement)
 ExactCreateMode  == fs.created => fs.mode = {"ur", "uw"} \ UmaskBits(umask)
 ExistingModeKept == (fs.exists /\ ~fs.created /\ target # "bundled" /\ target # "file_obj") => fs.mode = ModeOf(target)
@@ -183,4 +234,5 @@ DistinctDiffer   == (CmpDone /\ ~SamePublic(ca, cb)) => (~fpeq /\ ~beq)
 
 Emit == /\ (FileDone => PrintT(<<"FILE", ktype, target, umask, wpass, lpass, route, wres, lres>>))
         /\ (CmpDone => PrintT(<<"CMP", ca, cb, eq>>))
+        /\ ((pc = "hist" /\ Len(hist) = MaxHist) => PrintT(<<"HIST", hfile, [i \in 1..Len(hist) |-> <<hist[i].lp, hist[i].lc>>]>>))
 =============================================================================
